@@ -266,7 +266,7 @@ func pairs(t lib.IntType, rng *lib.Rng, nrand, coqRand int, f func(a, b *big.Int
 	lat := t.Lattice()
 	for i, a := range lat {
 		for j, b := range lat {
-			f(a, b, *tier == "thorough" || (i*31+j*17)%40 == 0)
+			f(a, b, (*tier == "thorough" && (i*31+j*17)%6 == 0) || (i*31+j*17)%40 == 0)
 		}
 	}
 	for i := 0; i < nrand; i++ {
@@ -780,7 +780,7 @@ func c14(sum *lib.Summary) {
 			if o.Name == "BShl" || o.Name == "BShr" {
 				for i, a := range lat {
 					for j, b := range amts {
-						one(t, o, a, b, *tier == "thorough" || (i*7+j*3)%45 == 0)
+						one(t, o, a, b, (*tier == "thorough" && (i*7+j*3)%6 == 0) || (i*7+j*3)%45 == 0)
 					}
 				}
 				for i := 0; i < nrand; i++ {
@@ -789,7 +789,7 @@ func c14(sum *lib.Summary) {
 			} else {
 				for i, a := range lat {
 					for j, b := range lat {
-						one(t, o, a, b, *tier == "thorough" || (i*31+j*17)%40 == 0)
+						one(t, o, a, b, (*tier == "thorough" && (i*31+j*17)%6 == 0) || (i*31+j*17)%40 == 0)
 					}
 				}
 				for i := 0; i < nrand; i++ {
@@ -1072,7 +1072,7 @@ func c32(sum *lib.Summary) {
 	for _, o := range arithOps {
 		for i, a := range pool {
 			for j, b := range pool {
-				if *tier == "thorough" || (i*13+j*7)%9 == 0 || (i < 24 && j < 24) {
+				if (*tier == "thorough" && (i*13+j*7)%3 == 0) || (i*13+j*7)%9 == 0 || (i < 24 && j < 24) {
 					check(o, a, b, true)
 				}
 			}
@@ -1093,7 +1093,7 @@ func c32(sum *lib.Summary) {
 	}
 	for i, a := range pool {
 		for j, b := range amts {
-			if *tier == "thorough" || (i*5+j*3)%7 == 0 {
+			if (*tier == "thorough" && (i*5+j*3)%3 == 0) || (i*5+j*3)%7 == 0 {
 				check(mops[8], a, b, true)
 				check(mops[9], a, b, true)
 			}
@@ -1168,7 +1168,7 @@ func c21(sum *lib.Summary) {
 	distinct := map[string]bool{}
 	budget := 40
 	if *tier == "thorough" {
-		budget = 600
+		budget = 250
 	}
 	for _, t := range lib.IntTypes {
 		// candidate endpoints
